@@ -231,11 +231,14 @@ def replay(path):
     with open(path) as f:
         rec = json.load(f)
     case = rec['detail']['case']
-    tier = rec['detail'].get('tier', 'quick')
-    d = _tlc_family(case['family'], tier, None)
-    cases = [c for c in _cases_of(case['family'], d) if c.id == case['id']]
+    cases = []
+    for tier in dict.fromkeys(('quick', rec['detail'].get('tier', 'quick'))):     # the quick universe is a subset
+        d = _tlc_family(case['family'], tier, None)
+        cases = [c for c in _cases_of(case['family'], d) if c.id == case['id']]
+        if cases:
+            break
     if not cases:
-        raise common.Machinery('case %s not enumerated by Types_%s_%s' % (case['id'], case['family'], tier))
+        raise common.Machinery('case %s not enumerated by Types_%s_*' % (case['id'], case['family']))
     types_cases.init()
     c = cases[0]
     src, obs = types_cases.render(c)
